@@ -174,3 +174,53 @@ Qed.
 
 Example ex_r2_valid : valid_r2 (mk_r2_Rect (mk_r1_Interval 0%float 1%float) (mk_r1_Interval (-1)%float 1%float)).
 Proof. repeat split. Qed.
+
+(** * Interior predicates: the interior of [lo,hi] is the open interval, a set lies in the
+    interior iff all its points do (r1, then component-wise for r2) *)
+Definition int1 (i : r1_Interval) (p : PrimFloat.float) : Prop :=
+  rank (r1_Interval_Lo i) < rank p < rank (r1_Interval_Hi i).
+Definition int_r2 (r : r2_Rect) (px py : PrimFloat.float) : Prop :=
+  int1 (r2_Rect_X r) px /\ int1 (r2_Rect_Y r) py.
+
+Lemma r1_interior_contains_mem i p : wf1 i -> nonnan p ->
+  (r1_Interval_InteriorContains i p = true <-> int1 i p).
+Proof.
+  destruct i as [lo hi]. unfold int1. r1_unfold. simpl. intros [Hl Hh] Hp. split.
+  - intros H. split_cmp. float_cmp_to_R. lra.
+  - intros [H1 H2]. split_cmp; float_cmp_to_R; lra.
+Qed.
+
+Lemma r1_interior_contains_interval_spec a b : wf1 a -> wf1 b ->
+  (r1_Interval_InteriorContainsInterval a b = true <-> forall p, nonnan p -> mem1 b p -> int1 a p).
+Proof.
+  destruct a as [al ah], b as [bl bh]. unfold int1. r1_unfold. r1_unfold. simpl. intros [? ?] [? ?]. split.
+  - intros Hc p Hp Hm. split_cmp; float_cmp_to_R; lra.
+  - intros Hall. split_cmp; try reflexivity; float_cmp_to_R.
+    + destruct (Hall bl) as [? ?]; auto; lra.
+    + destruct (Hall bh) as [? ?]; auto; lra.
+Qed.
+
+Lemma r2_interior_contains_point_mem r p : wf_r2 r -> nonnan (r2_Point_X p) -> nonnan (r2_Point_Y p) ->
+  (r2_Rect_InteriorContainsPoint r p = true <-> int_r2 r (r2_Point_X p) (r2_Point_Y p)).
+Proof.
+  intros [Wx Wy] Nx Ny. unfold r2_Rect_InteriorContainsPoint, int_r2. rewrite andb_true_iff.
+  rewrite (r1_interior_contains_mem _ _ Wx Nx), (r1_interior_contains_mem _ _ Wy Ny). tauto.
+Qed.
+
+Lemma r2_interior_contains_iff a b : wf_r2 a -> valid_r2 b ->
+  (r2_Rect_InteriorContains a b = true <->
+   forall px py, nonnan px -> nonnan py -> mem_r2 b px py -> int_r2 a px py).
+Proof.
+  intros [Wax Way] [[Wbx Wby] Eb]. unfold r2_Rect_InteriorContains, mem_r2, int_r2. rewrite andb_true_iff.
+  rewrite (r1_interior_contains_interval_spec _ _ Wax Wbx), (r1_interior_contains_interval_spec _ _ Way Wby). split.
+  - intros [Hx Hy] px py Nx Ny [Mx My]. split; [apply Hx|apply Hy]; assumption.
+  - intros Hall. destruct (r1_Interval_IsEmpty (r2_Rect_X b)) eqn:Ex.
+    + split; intros p Np Hm; exfalso.
+      * apply (proj1 (isempty_spec _ Wbx) Ex p Np Hm).
+      * apply (proj1 (isempty_spec _ Wby) (eq_sym Eb) p Np Hm).
+    + destruct (r1_nonempty_witness _ Wbx Ex) as [Nx0 Mx0].
+      destruct (r1_nonempty_witness _ Wby (eq_sym Eb)) as [Ny0 My0].
+      split; intros p Np Hm.
+      * apply (Hall p _ Np Ny0). split; assumption.
+      * apply (Hall _ p Nx0 Np). split; assumption.
+Qed.
